@@ -1,5 +1,6 @@
 import MicroHttp.Props.C03
 import MicroHttp.Props.C04Limit
+import MicroHttp.Props.Tables
 #print axioms MicroHttp.C03.P0_wf
 #print axioms MicroHttp.C03.inv_new
 #print axioms MicroHttp.C03.tryRead_safe
@@ -9,3 +10,4 @@ import MicroHttp.Props.C04Limit
 #print axioms MicroHttp.C03.requestLine_no_panic
 #print axioms MicroHttp.C04.body_survives_lower_limit
 #print axioms MicroHttp.C04.setLimit_only_limit
+#print axioms MicroHttp.Tables.no_shared_state
